@@ -56,6 +56,27 @@ func TestCheck(t *testing.T) {
 				r.Extra("devices_"+dbKind, w.Devs)
 			}
 		}
+		// The same contents after a restart (file-cache round trip); no
+		// listeners here, the handler-level product is what matters.
+		if w, err := buildWorld(r, "restored", round); err != nil {
+			r.Inconclusive("building the restored world: " + err.Error())
+		} else {
+			g := &gen{r: r, w: w, round: round}
+			g.emit = func(rq *reqSpec) {
+				rq.Round = round
+				w.run(r, rq)
+				r.Bucket("cases:restored", 1)
+				if rq.Dev != "" && len(rq.Dev) > 0 {
+					if d := w.devByID(rq.Dev); d != nil && d.State == stLive && d.dohOnly() {
+						r.Bucket("restored_cases_dohonly_device", 1)
+					}
+				}
+			}
+			g.all()
+			for k, v := range w.db.snapshot() {
+				r.Bucket("db_calls:restored:"+k, int64(v))
+			}
+		}
 		runConcurrent(r, t, round)
 	}
 
@@ -88,6 +109,12 @@ func TestCheck(t *testing.T) {
 		"db_calls:real:device-id":                  1000,
 		"db_calls:real:linked-ip":                  80,
 		"db_calls:real:dedicated-ip":               100,
+		"e2e_wire_sni_confirmed":                   500,
+		"e2e_host_header_cases":                    200,
+		"e2e_host_header_cases_without_sni":        100,
+		"cases:restored":                           15000,
+		"restored_cases_dohonly_device":            1000,
+		"db_calls:restored:device-id":              1000,
 		"concurrent_requests":                      4000,
 		"concurrent_prior_unknown_dedicated_drops": 16,
 		"concurrent_unknown_dedicated_drops":       100,
